@@ -357,8 +357,35 @@ func (c13Engine) Run(raw json.RawMessage) (interface{}, error) {
 		insts = append(insts, rm)
 		g.RegisterModule(rm)
 	}
-	for i, m := range in.Mods[:len(in.Mods)-late] {
-		register(i, m)
+	if n := len(in.Mods); late == 0 && n >= 3 && (n+len(in.Ops))%2 == 0 {
+		// a caller that keeps its modules in one list and registers parts of it, with another module
+		// in between: the generator must not keep (and later write through) the slice it was handed
+		var rms []*recMod
+		for i, m := range in.Mods {
+			if m.Same != nil && *m.Same < len(rms) {
+				rm := rms[*m.Same]
+				rm.pos = append(rm.pos, i)
+				rms = append(rms, rm)
+				continue
+			}
+			rm := &recMod{idx: i, pos: []int{i}, name: m.Name.String(), log: log, md: md, pushes: (i + len(m.Arts)) % 3}
+			for _, a := range m.Arts {
+				rm.arts = append(rm.arts, a.toArtifact())
+			}
+			rms = append(rms, rm)
+		}
+		insts = rms
+		shared := []pgs.Module{rms[0]}
+		for _, rm := range rms[2:] {
+			shared = append(shared, rm)
+		}
+		g.RegisterModule(shared[:1]...)
+		g.RegisterModule(rms[1])
+		g.RegisterModule(shared[1:]...)
+	} else {
+		for i, m := range in.Mods[:len(in.Mods)-late] {
+			register(i, m)
+		}
 	}
 	var first pgs.AST
 	for k, op := range in.Ops {
